@@ -212,6 +212,45 @@ theorem fid_tryFraction_sel {c : Converter Rat} (hc : c.Sound) {q' : SQuantity R
   · rw [h]; simp only [hta]
   · rw [h]; simp only [hta, if_true]
 
+/-- `fit` of what a successful `fit_fraction` (target system) left returns it unchanged -/
+theorem fid_fit_after_with {c : Converter Rat} (hc : c.Sound) (hcoh : c.SystemsCoherent)
+    (q q' : SQuantity Rat) (u : Unit Rat) (s : System) (v : Rat) (hum : u ∈ c.allUnits)
+    (hw : fitFractionWith c q u s v = (q', .ok true)) : fit c q' = (q', .ok ()) := by
+  obtain ⟨sel, sym, hin, hs, hagain⟩ := fid_fitFractionWith_again hc q q' u s v hum hw
+  have hb := hc.best_mem _ _ _ hin
+  have hinfo : unitInfo c q' = some sel.2 := by
+    rcases hs.shape with h | ⟨e2, h, _⟩ <;>
+      (rw [h]; exact unitInfo_symbol hc hb.1 (by simp [hs.symbol]) rfl)
+  unfold fit
+  simp only [hinfo, hs.enabled, if_true]
+  have hff' : fitFraction c q' sel.2 sel.2.system = (q', .ok true) := by
+    cases hbs : sel.2.system with
+    | none =>
+      unfold fitFraction
+      simp only [fid_tryFraction_sel hc hb.1 hs]
+    | some s' =>
+      have hL : ((c.best sel.2.pq).conversions s').entries = ((c.best u.pq).conversions s).entries := by
+        have := hcoh u.pq s sel.2 hin
+        rw [hbs] at this
+        rw [hb.2]; exact this
+      have := hagain s' hL
+      unfold fitFraction
+      simp only
+      rcases hs.shape with h | ⟨e2, h, _⟩
+      · rw [h] at this ⊢; exact this
+      · rw [h] at this ⊢; exact this
+  simp only [hff']
+
+/-- `fit_fraction` with a target system is `fitFractionWith` on the leading number -/
+theorem fid_fitFraction_some {c : Converter Rat} {q q' : SQuantity Rat} {u : Unit Rat} {s : System} {bl : Bool}
+    (h : fitFraction c q u (some s) = (q', .ok bl)) : ∃ v, fitFractionWith c q u s v = (q', .ok bl) := by
+  unfold fitFraction at h
+  simp only at h
+  cases hq : q.value with
+  | text t => rw [hq] at h; cases h
+  | number n => rw [hq] at h; exact ⟨_, h⟩
+  | range a e => rw [hq] at h; exact ⟨_, h⟩
+
 /-- **`fit` is idempotent over ℚ when `fit_fraction` finds a fraction.**  A quantity in a known unit with fractions
     enabled for which `fit_fraction` answers `true` (a fraction was written): `fit` returns that quantity, and fitting it
     again returns it unchanged — same unit text, same numbers.  No sign condition; for a unit with a system the lists
@@ -242,37 +281,238 @@ theorem fid_fit_idempotent_fraction {c : Converter Rat} (hc : c.Sound) (hcoh : c
       simp only [h2]
     | some s =>
       rw [hsys] at hff
-      have hw : ∃ v, fitFractionWith c q u s v = (q', .ok true) := by
-        unfold fitFraction at hff
-        simp only at hff
-        cases hq : q.value with
-        | text t => rw [hq] at hff; cases hff
-        | number n => rw [hq] at hff; exact ⟨_, hff⟩
-        | range a e => rw [hq] at hff; exact ⟨_, hff⟩
-      obtain ⟨v, hw⟩ := hw
-      obtain ⟨sel, sym, hin, hs, hagain⟩ := fid_fitFractionWith_again hc q q' u s v hum hw
-      have hb := hc.best_mem _ _ _ hin
-      have hinfo : unitInfo c q' = some sel.2 := by
-        rcases hs.shape with h | ⟨e2, h, _⟩ <;>
-          (rw [h]; exact unitInfo_symbol hc hb.1 (by simp [hs.symbol]) rfl)
+      obtain ⟨v, hw⟩ := fid_fitFraction_some hff
+      exact fid_fit_after_with hc hcoh q q' u s v hum hw
+
+/-! ### the general case for a unit with a system: no hypothesis on the fractions configuration -/
+
+theorem fid_apply_not_false {c : Converter Rat} {q q' : SQuantity Rat} {u : Unit Rat} {sel : Number Rat × Unit Rat}
+    (h : fitFractionApply c q u sel = (q', .ok false)) : False := by
+  unfold fitFractionApply at h
+  split at h
+  · cases h
+  · split at h
+    · simp at h
+    · split at h
+      · cases h
+      · simp at h
+    · cases h
+
+/-- a `fit_fraction` (target system) that answers `false` left the quantity alone -/
+theorem fid_with_false {c : Converter Rat} {q q' : SQuantity Rat} {u : Unit Rat} {s : System} {v : Rat}
+    (h : fitFractionWith c q u s v = (q', .ok false)) : q' = q := by
+  unfold fitFractionWith at h
+  split at h
+  · cases h
+  · split at h
+    · simp only [Prod.mk.injEq, and_true] at h; exact h.symm
+    · exact (fid_apply_not_false h).elim
+
+/-- `fit_fraction` (target system) only reads the entries of the list -/
+theorem fid_fitFraction_list {c : Converter Rat} (q : SQuantity Rat) (b : Unit Rat) (s s' : System)
+    (hL : (c.best b.pq).conversions s' = (c.best b.pq).conversions s) :
+    fitFraction c q b (some s') = fitFraction c q b (some s) := by
+  unfold fitFraction
+  simp only
+  cases q.value <;> simp only [fitFractionWith, hL]
+
+/-- a successful `convert(SameSystem)` of a quantity in a unit with a system, read backwards -/
+theorem fid_convertImpl_same_inv {c : Converter Rat} (q q' : SQuantity Rat) (u : Unit Rat) (s : System)
+    (hu : unitInfo c q = some u) (hsys : u.system = some s)
+    (h : convertImpl c q .sameSystem = (q', .ok ())) :
+    ∃ value v' b0 sym0 bl, ConvertValue.ofValue q.value = .ok value ∧
+      c.convertToBest value u s = .ok (v', b0) ∧ b0.symbol? = some sym0 ∧
+      fitFraction c ⟨v'.toValue, some sym0⟩ b0 (some s) = (q', .ok bl) := by
+  obtain ⟨k, hk, hf⟩ := unitInfo_some hu
+  unfold convertImpl at h
+  simp only [hk, hf] at h
+  cases hval : ConvertValue.ofValue q.value with
+  | error e => rw [hval] at h; cases h
+  | ok value =>
+    rw [hval] at h
+    simp only at h
+    cases hcv : c.convert value (.unit u) .sameSystem with
+    | error e => rw [hcv] at h; cases h
+    | ok r =>
+      rw [hcv] at h
+      simp only at h
+      cases hsym : r.2.symbol? with
+      | none => rw [hsym] at h; cases h
+      | some sym0 =>
+        rw [hsym, hsys] at h
+        simp only at h
+        have hcb : c.convertToBest value u s = .ok (r.1, r.2) :=
+          bu_convert_inv (to := .sameSystem) (by simp [ConvertTo.systemFor, hsys]) hcv
+        cases hR : fitFraction c ⟨r.1.toValue, some sym0⟩ r.2 (some s) with
+        | mk p e =>
+          rw [hR] at h
+          cases e with
+          | error e => cases h
+          | ok bl =>
+            simp only [dropBool, Prod.mk.injEq, and_true] at h
+            exact ⟨value, r.1, r.2, sym0, bl, rfl, hcb, hsym, by rw [← h]; exact hR⟩
+
+/-- `convert(SameSystem)` of a quantity that already sits in the unit `best_unit` picks for it -/
+theorem fid_convertImpl_same_of {c : Converter Rat} (hc : c.Sound) (b : Unit Rat) (s' : System)
+    (v' : ConvertValue Rat) (sym : Str) (hb : b ∈ c.allUnits) (hsym : b.symbol? = some sym)
+    (hbs : b.system = some s') (hconv : c.convertToBest v' b s' = .ok (v', b)) :
+    convertImpl c ⟨v'.toValue, some sym⟩ .sameSystem =
+      dropBool (fitFraction c ⟨v'.toValue, some sym⟩ b (some s')) := by
+  have hf : c.findUnit sym = some b := hc.find_symbol hb hsym
+  have hcv : c.convert v' (.unit b) .sameSystem = .ok (v', b) :=
+    bu_convert_of (to := .sameSystem) (by simp [ConvertTo.systemFor, hbs]) hconv
+  unfold convertImpl
+  simp only [hf, fc_ofValue_toValue, hcv, hsym, hbs]
+
+theorem fid_convertToBest_self {c : Converter Rat} {v' : ConvertValue Rat} {b : Unit Rat} {s : System}
+    (h : ((c.best b.pq).conversions s).bestUnit v' b = .ok (some b)) :
+    c.convertToBest v' b s = .ok (v', b) := by
+  unfold Converter.convertToBest
+  rw [h]
+  simp only [bu_convertValue_self]
+
+/-- **`fit` is idempotent over ℚ for every unit that has a system, whatever the fractions configuration.**
+    `hlist`: the units of the system's list have a system themselves (with `SystemsCoherent`: the list's own);
+    `hpick`: `best_unit`, asked again about the converted value in the unit it picked, picks that unit again
+    (`fid_pick_*` below: non-negative leading numbers; or offset-free units of positive ratio; or a one-entry list). -/
+theorem fid_fit_idempotent {c : Converter Rat} (hc : c.Sound) (hcoh : c.SystemsCoherent)
+    (q q' : SQuantity Rat) (u : Unit Rat) (s : System) (hu : unitInfo c q = some u) (hsys : u.system = some s)
+    (hlist : ∀ x ∈ ((c.best u.pq).conversions s).unitsOf, x.system ≠ none)
+    (hpick : ∀ value v' b0, ConvertValue.ofValue q.value = .ok value →
+      c.convertToBest value u s = .ok (v', b0) →
+      ((c.best u.pq).conversions s).bestUnit v' b0 = .ok (some b0))
+    (h : fit c q = (q', .ok ())) : fit c q' = (q', .ok ()) := by
+  have hum := unitInfo_mem hu
+  -- either `fit_fraction` wrote a fraction, or the result is that of `convert(SameSystem)`
+  have hcases : (∃ v, fitFractionWith c q u s v = (q', .ok true)) ∨
+      convertImpl c q .sameSystem = (q', .ok ()) := by
+    unfold fit at h
+    simp only [hu] at h
+    split at h
+    · rw [hsys] at h
+      cases hR : fitFraction c q u (some s) with
+      | mk p e =>
+        rw [hR] at h
+        cases e with
+        | error e => cases h
+        | ok bl =>
+          obtain ⟨v, hw⟩ := fid_fitFraction_some hR
+          cases bl with
+          | true =>
+            simp only [Prod.mk.injEq, and_true] at h
+            left; exact ⟨v, by rw [← h]; exact hw⟩
+          | false =>
+            simp only at h
+            have := fid_with_false hw
+            right; rw [← this]; exact h
+    · right; exact h
+  rcases hcases with ⟨v, hw⟩ | hci
+  · exact fid_fit_after_with hc hcoh q q' u s v hum hw
+  · obtain ⟨value, v', b0, sym0, bl, hval, hcb, hsym0, hR⟩ := fid_convertImpl_same_inv q q' u s hu hsys hci
+    have hs := convertToBest_spec hc hum hcb
+    -- hs.1 : b0 ∈ list, hs.2.1 : b0 ∈ allUnits, hs.2.2.1 : b0.pq = u.pq
+    cases bl with
+    | true =>
+      obtain ⟨v, hw⟩ := fid_fitFraction_some hR
+      exact fid_fit_after_with hc hcoh _ q' b0 s v hs.2.1 hw
+    | false =>
+      obtain ⟨v, hw⟩ := fid_fitFraction_some hR
+      have hq' : q' = ⟨v'.toValue, some sym0⟩ := fid_with_false hw
+      obtain ⟨s', hbs⟩ := Option.ne_none_iff_exists'.mp (hlist b0 hs.1)
+      have hL : (c.best b0.pq).conversions s' = (c.best b0.pq).conversions s := by
+        apply fc_bc_ext
+        have := hcoh u.pq s b0 hs.1
+        rw [hbs] at this
+        rw [hs.2.2.1]; exact this
+      have hR' : fitFraction c q' b0 (some s') = (q', .ok false) := by
+        rw [fid_fitFraction_list _ _ _ _ hL, hq']
+        rw [hq'] at hR; exact hR
+      have hpk := hpick value v' b0 hval hcb
+      have hconv : c.convertToBest v' b0 s' = .ok (v', b0) := by
+        apply fid_convertToBest_self
+        rw [hL, hs.2.2.1]; exact hpk
+      have hci' : convertImpl c q' .sameSystem = (q', .ok ()) := by
+        rw [hq', fid_convertImpl_same_of hc b0 s' v' sym0 hs.2.1 hsym0 hbs hconv, ← hq', hR']
+        rfl
+      have hinfo : unitInfo c q' = some b0 := by
+        rw [hq']; exact unitInfo_symbol hc hs.2.1 (by simp [hsym0]) rfl
       unfold fit
-      simp only [hinfo, hs.enabled, if_true]
-      have hff' : fitFraction c q' sel.2 sel.2.system = (q', .ok true) := by
-        cases hbs : sel.2.system with
-        | none =>
-          unfold fitFraction
-          simp only [fid_tryFraction_sel hc hb.1 hs]
-        | some s' =>
-          have hL : ((c.best sel.2.pq).conversions s').entries = ((c.best u.pq).conversions s).entries := by
-            have := hcoh u.pq s sel.2 hin
-            rw [hbs] at this
-            rw [hb.2]; exact this
-          have := hagain s' hL
-          unfold fitFraction
-          simp only
-          rcases hs.shape with h | ⟨e2, h, _⟩
-          · rw [h] at this ⊢; exact this
-          · rw [h] at this ⊢; exact this
-      simp only [hff']
+      simp only [hinfo, hbs, hR']
+      split
+      · exact hci'
+      · exact hci'
+
+/-! ### when `best_unit` picks its own pick again -/
+
+/-- non-negative leading numbers (every quantity of a recipe but a negative temperature) -/
+theorem fid_pick_nonneg {c : Converter Rat} (hc : c.Sound) {u : Unit Rat} (hu : u ∈ c.allUnits) (s : System)
+    {value v' : ConvertValue Rat} {b0 : Unit Rat} (h : c.convertToBest value u s = .ok (v', b0))
+    (h0 : 0 ≤ value.lead) (h0' : 0 ≤ v'.lead) :
+    ((c.best u.pq).conversions s).bestUnit v' b0 = .ok (some b0) := by
+  obtain ⟨hbest, hv⟩ := bu_convertToBest_inv h
+  have hbm := hc.best_mem _ _ _ (bestUnit_mem hbest)
+  have hlead := bu_convertValue_lead hv
+  have hamt := convertF64_some_amount hlead (hc.ratio_ne _ hbm.1) (hc.id_inj _ _ hu hbm.1)
+  have := bu_idempotent hc hu s (value' := v') hbest
+    (by rw [Rat.abs_of_nonneg h0, Rat.abs_of_nonneg h0']; exact hamt)
+  rw [hbm.2] at this; exact this
+
+theorem fid_abs_amount {v v' : Rat} {u b : Unit Rat} (hu0 : u.difference = 0) (hb0 : b.difference = 0)
+    (hur : 0 < u.ratio) (hbr : 0 < b.ratio) (h : amount v' b = amount v u) :
+    amount (Rat.abs v') b = amount (Rat.abs v) u := by
+  rw [amount_rat, amount_rat, hu0, hb0] at *
+  simp only [← rat_abs_eq]
+  by_cases h1 : 0 ≤ v' <;> by_cases h2 : 0 ≤ v <;> simp only [h1, h2, if_true, if_false]
+  · exact h
+  · exfalso
+    have a1 : 0 ≤ v' * b.ratio := Rat.mul_nonneg h1 (Rat.le_of_lt hbr)
+    have a2 : 0 < (-v) * u.ratio := Rat.mul_pos (by grind) hur
+    grind
+  · exfalso
+    have a1 : 0 ≤ v * u.ratio := Rat.mul_nonneg h2 (Rat.le_of_lt hur)
+    have a2 : 0 < (-v') * b.ratio := Rat.mul_pos (by grind) hbr
+    grind
+  · grind
+
+/-- any sign, when neither unit has an additive offset and both ratios are positive (everything but temperatures) -/
+theorem fid_pick_offset_free {c : Converter Rat} (hc : c.Sound) {u : Unit Rat} (hu : u ∈ c.allUnits) (s : System)
+    {value v' : ConvertValue Rat} {b0 : Unit Rat} (h : c.convertToBest value u s = .ok (v', b0))
+    (hu0 : u.difference = 0) (hb0 : b0.difference = 0) (hur : 0 < u.ratio) (hbr : 0 < b0.ratio) :
+    ((c.best u.pq).conversions s).bestUnit v' b0 = .ok (some b0) := by
+  obtain ⟨hbest, hv⟩ := bu_convertToBest_inv h
+  have hbm := hc.best_mem _ _ _ (bestUnit_mem hbest)
+  have hlead := bu_convertValue_lead hv
+  have hamt := convertF64_some_amount hlead (hc.ratio_ne _ hbm.1) (hc.id_inj _ _ hu hbm.1)
+  have := bu_idempotent hc hu s (value' := v') hbest (fid_abs_amount hu0 hb0 hur hbr hamt)
+  rw [hbm.2] at this; exact this
+
+/-- any sign and any offset, when the list has a single entry (the shipped temperature lists: °C alone, °F alone):
+    there is nothing to choose -/
+theorem fid_pick_single {c : Converter Rat} (hc : c.Sound) {u : Unit Rat} (hu : u ∈ c.allUnits) (s : System)
+    {value v' : ConvertValue Rat} {b0 : Unit Rat} (h : c.convertToBest value u s = .ok (v', b0))
+    (hone : ((c.best u.pq).conversions s).entries.length = 1) :
+    ((c.best u.pq).conversions s).bestUnit v' b0 = .ok (some b0) := by
+  obtain ⟨hbest, hv⟩ := bu_convertToBest_inv h
+  obtain ⟨base, rest, norm, he, hn, hb⟩ := bu_bestUnit_some hbest
+  have hrest : rest = [] := by
+    rw [he] at hone
+    simp only [List.length_cons, Nat.add_eq_right, List.length_eq_zero_iff] at hone
+    exact hone
+  subst hrest
+  have hpick : ∀ n, buPick [base] base n = base.2 := by
+    intro n
+    unfold buPick
+    simp only [List.reverse_cons, List.reverse_nil, List.nil_append, List.find?_cons, List.find?_nil]
+    split <;> rename_i hx
+    · split at hx
+      · cases hx; rfl
+      · cases hx
+    · rfl
+  have hb0 : b0 = base.2 := by rw [hb, he, hpick]
+  have hbm := hc.best_mem _ _ _ (bestUnit_mem hbest)
+  cases hn' : convertF64 (Rat.abs v'.lead) b0 base.2 with
+  | none => exact absurd hn' (convertF64_ne_none _ _ _ (by rw [hb0]))
+  | some n' =>
+    rw [bu_bestUnit_of he hn', he, hpick, hb0]
 
 end Cook
